@@ -17,6 +17,7 @@
 package frame
 
 import (
+	"bytes"
 	"encoding/binary"
 	"github.com/go-netty/go-netty"
 	"github.com/go-netty/go-netty/codec"
@@ -49,7 +50,11 @@ func (v *varintLengthFieldCodec) HandleRead(ctx netty.InboundContext, message ne
 	utils.AssertIf(frameLength > uint64(v.maxFrameLength),
 		"frame length too large, frameLength(%d) > maxFrameLength(%d)", frameLength, v.maxFrameLength)
 
-	ctx.HandleRead(io.LimitReader(reader, int64(frameLength)))
+	// a frame is delivered only after it has been received completely.
+	frame := make([]byte, frameLength)
+	n, err := io.ReadFull(reader, frame)
+	utils.AssertIf(nil != err, "read frame fail, frameLength: %d, read: %d, error: %w", frameLength, n, err)
+	ctx.HandleRead(bytes.NewReader(frame))
 }
 
 func (v *varintLengthFieldCodec) HandleWrite(ctx netty.OutboundContext, message netty.Message) {
